@@ -152,7 +152,7 @@ def run_unit(unit, workdir, tier, ledger, seed):
 
 def write_replay(pid, unit_res, witness, idx):
     os.makedirs(os.path.join(VERIF, 'replays'), exist_ok=True)
-    path = os.path.join(VERIF, 'replays', '%s-%s-%d.json' % (pid, unit_res['unit'], idx))
+    path = os.path.join(VERIF, 'replays', '%s-%s-%d.json' % (pid, unit_res['unit'].replace('/', '_'), idx))
     body = {
         'property': pid, 'unit': unit_res['unit'], 'backend': unit_res.get('backend'),
         'failed_obligations': [{k: d.get(k) for k in ('class', 'message', 'function', 'section', 'line', 'text', 'other_text', 'rendered')}
@@ -205,7 +205,8 @@ def main():
         with cf.ThreadPoolExecutor(max_workers=8) as ex:
             futs = [ex.submit(run_unit, u, workdir, tier, ledger, seed) for u in units]
             kfuts = [ex.submit(registry.run_kani, k, workdir, tier, seed) for k in spec.get('kani', [])]
-            for f in futs + kfuts:
+            bfuts = [ex.submit(registry.run_bounded, b, workdir, seed) for b in spec.get('bounded', [])]
+            for f in futs + kfuts + bfuts:
                 results.append(f.result())
         # thorough: proof stability under other seeds / larger rlimit
         stability = []
@@ -221,6 +222,9 @@ def main():
         # ---- verdicts
         violations, undecided = [], []
         for r in results:
+            if r.get('bounded') and r['status'] == 'violation':
+                violations.append((r, r['witness']))
+                continue
             if r['status'] in ('violation', 'rlimit'):
                 wit = None
                 try:
